@@ -43,6 +43,9 @@ type mtCase struct {
 	Proto    string `json:"proto"`
 	// TCP: the impostor announces a TCP address (connections are passed on to the socket it really serves on)
 	TCP bool `json:"tcp,omitempty"`
+	// Upgrade: the plugin serves version 1 over net/rpc and version 2 over gRPC (a gRPC server is configured); the
+	// host only speaks version 1, so the connection is net/rpc
+	Upgrade bool `json:"upgrade,omitempty"`
 }
 
 type mtAttempt struct {
@@ -230,6 +233,10 @@ func runMTLSCase(c mtCase, bin, tmp string) map[string]interface{} {
 	wire, mux := protoSets(c.Proto)
 	pc := &vp.PluginCfg{LegacyVersion: 1, Legacy: &vp.SetCfg{Proto: wire, Tag: "1"}, GRPCServer: wire == "grpc"}
 	hc := &vp.HostCfg{LegacyVersion: 1, Legacy: &vp.SetCfg{Proto: "grpc", Tag: "1"}, Allowed: []string{"netrpc", "grpc"}, Mux: mux, TLS: "auto"}
+	if c.Upgrade {
+		pc = &vp.PluginCfg{Versioned: map[int]vp.SetCfg{1: {Proto: "netrpc", Tag: "1"}, 2: {Proto: "grpc", Tag: "2"}}, GRPCServer: true}
+		hc = &vp.HostCfg{Versioned: map[int]vp.SetCfg{1: {Proto: "netrpc", Tag: "1"}}, Allowed: []string{"netrpc", "grpc"}, TLS: "auto"}
+	}
 	var extra []string
 	if c.Kind == "impostor" {
 		mode := "1" // announces one certificate, serves with another
